@@ -2,7 +2,7 @@
    iteration_canonical. *)
 From DV Require Import Base.Prelude Model.NameM Model.BTZoneM
      Proofs.BTZoneOrder Proofs.BTZoneList Proofs.BTZoneSpec Proofs.BTZoneWalk Proofs.BTZoneInv
-     Proofs.BTZoneMaster Proofs.BTZoneOps Proofs.BTZoneOps2 Proofs.BTZoneOps3.
+     Proofs.BTZoneMaster Proofs.BTZoneOps Proofs.BTZoneOps2 Proofs.BTZoneOps3 Proofs.BTZoneOps4.
 Open Scope Z_scope.
 
 Lemma Inv_changed_irrel : forall c l d ch ch', Inv c (mkVer l d ch) -> Inv c (mkVer l d ch').
